@@ -118,7 +118,13 @@ const OpInfo op_info[OP_NOPS] = {
     {"new/delete_precomp", 0, "", LC, -1, OP_NONE, false},
     {"spqlios_alloc/spqlios_free", 0, "", LC, -1, OP_NONE, false},
     {"new_*_fft_precomp with buffers/get_buffer/delete", 0, "", LC, -1, OP_NONE, false},
+    {"two modules of one dimension, one deleted, the other used", 0, "", LC, -1, OP_NONE, false},
 };
+
+int& op_selfcheck_errors() {
+  static thread_local int e = 0;
+  return e;
+}
 
 static inline const MODULE* MOD(const std::vector<void*>& mods, int i) { return (const MODULE*)mods[i]; }
 
@@ -387,6 +393,40 @@ void op_invoke(const Program& P, const Call& c, const std::vector<void*>& mods, 
         }
         delete_cplx_ifft_precomp(t);
       }
+      break;
+    }
+    case OP_LIFE_MODULE_PAIR: {
+      // module instances are independent objects: deleting one must not affect another of the same dimension
+      const uint64_t n = c.p[0];
+      const MODULE_TYPE t = c.p[1] ? NTT120 : FFT64;
+      MODULE* m1 = new_module_info(n, t);
+      MODULE* m2 = new_module_info(n, t);
+      MODULE* victim = c.p[2] ? m2 : m1;
+      MODULE* surv = c.p[2] ? m1 : m2;
+      delete_module_info(victim);
+      int64_t* a = (int64_t*)malloc(n * 8);
+      void* d = malloc(n * (t == NTT120 ? 32 : 8));
+      void* b = malloc(n * 16);
+      uint64_t tb = vec_znx_idft_tmp_bytes(surv);
+      uint8_t* tmp2 = (uint8_t*)malloc(tb ? tb : 8);
+      for (uint64_t i = 0; i < n; ++i) a[i] = (int64_t)((i * 2654435761u + c.p[3]) % 1021) - 510;
+      vec_znx_dft(surv, (VEC_ZNX_DFT*)d, 1, a, 1, n);
+      vec_znx_idft(surv, (VEC_ZNX_BIG*)b, 1, (const VEC_ZNX_DFT*)d, 1, tmp2);
+      int bad = 0;
+      for (uint64_t i = 0; i < n; ++i) {
+        if (t == NTT120) {
+          __int128 v;
+          memcpy(&v, (uint8_t*)b + i * 16, 16);
+          if (v != (__int128)a[i]) bad++;
+        } else if (((int64_t*)b)[i] != a[i])
+          bad++;
+      }
+      op_selfcheck_errors() = bad;
+      free(a);
+      free(d);
+      free(b);
+      free(tmp2);
+      delete_module_info(surv);
       break;
     }
     case OP_LIFE_TABLE: {
